@@ -54,6 +54,8 @@ def search(res, tier, seed, deep=False):
                         continue
                     d = build(name, var, mode, r)
                     n, nF = r.randint(730, 800), r.randint(730, 1100)
+                    if mode == "none" and var == "tas" and (tier != "quick" or name in ("CDFt", "QuantileDeltaMapping", "QuantileMapping")):
+                        n, nF = r.randint(2100, 2600), r.randint(2100, 3000)      # calibration samples of several thousand values
                     rs = np.random.RandomState(r.randint(0, 10 ** 6))
                     if var == "tas":
                         mk = lambda m, s: 280 + s + 8 * np.sin(np.arange(m) * 2 * np.pi / 365.25) + rs.normal(0, 2, m)
